@@ -1333,6 +1333,40 @@ def run_e2e(case, res):
                            'per_timepoint': [tp[int(aid)] for tp in tp_power]})
         hk.wrap(Orificing, '_get_power', post=power_post)
 
+        # the first grouping orders the assemblies by the documented
+        # parameter: total power when the coolant temperature is optimised
+        # (linear power for pin temperatures), per assembly the average over
+        # the time points of what the INPUT files give
+        first_group = {'pending': False}
+
+        def power_post2(args, kwargs, out, tok):
+            first_group['pending'] = True
+
+        def group_pre(args, kwargs):
+            if not first_group['pending']:
+                return None
+            first_group['pending'] = False
+            o = args[0]
+            if o.orifice_input['value_to_optimize'] != 'peak coolant temp':
+                return None
+            prm = np.asarray(args[1] if len(args) > 1 else kwargs['params'],
+                             dtype=float)
+            worst, wit = 0.0, None
+            for aid, got in prm:
+                exp = float(np.mean([tp[int(aid)] for tp in tp_power]))
+                d_ = abs(got - exp) / max(abs(exp), 1e-300)
+                if d_ > worst:
+                    worst, wit = d_, (int(aid), float(got), exp)
+            res.close('T4_grouping_parameter_is_total_power', worst, 1.0,
+                      1e-9, 'with the coolant temperature optimised the '
+                      'assemblies are grouped by something else than their '
+                      'total power (assembly, handed, power): %r' % (wit,),
+                      dict(key, n_types=len(
+                          o.orifice_input['assemblies_to_group'])))
+            return None
+        hk.wrap(Orificing, '_get_power', post=power_post2)
+        hk.wrap(Orificing, '_group', pre=group_pre)
+
         # the parametric table kept for every assembly type holds the
         # pressure drops of the single-assembly runs made FOR THAT TYPE
         par = {'on': False, 'runs': []}
